@@ -771,6 +771,19 @@ def run_dfi(case):
     if not e <= 1e-9:
       return out.fail(what='DFI changed a steady state', relerr=e, got=np.asarray(got).tolist(),
                       x0=np.asarray(x0).tolist())
+  # history: a second, newly built DFI with the same parameters in the same process (and the first one called
+  # again) must give the same result -- nothing may be left behind by an earlier evaluation
+  dfi2 = ti.digital_filter_initialization(eq, mk, filters, time_span, cutoff, dt)
+  for which, thunk in (('newly built, same parameters', lambda: dfi2(x0)), ('called a second time', lambda: dfi2(x0))):
+    ok, again = _guard(out, 'digital_filter_initialization (' + which + ')', thunk)
+    if not ok:
+      return out
+    e = core.relerr(again, want, scale)
+    if not e <= 1e-9:
+      return out.fail(what='digital_filter_initialization ' + which + ' in one process differs from the defining sum '
+                      '(the first evaluation was right)', relerr=e, got=np.asarray(again).tolist(),
+                      want=np.asarray(want).tolist())
+  out.units += 2
   # TimeReversedImExODE itself: terms negated, inverse of (1 + s G)
   rev = ti.TimeReversedImExODE(eq)
   s = float(dt * 0.7)
